@@ -32,7 +32,9 @@ def work(args):
         for p in props:
             c0, s0, e0 = basekeys[p]
             c1, s1, e1 = k1[p]
-            new = sorted(s1 - s0)
+            nk = lambda k: (k.split('|')[0], k.split('|')[-1])
+            b0 = {nk(k) for k in s0}
+            new = sorted(k for k in s1 - s0 if nk(k) not in b0)
             if new:
                 res[p] = ("FALSE-ALARM", new)
             elif c1 == 2 and c0 != 2:
